@@ -93,6 +93,16 @@ CHECKS["C05"] = (
     "DESIGN.md section 3, C05",
 )
 
+CHECKS["C04"] = (
+    "bounded-exhaustive enumeration of emitted programs, executed in a real interpreter (CPython/inspect/argparse as oracle)",
+    "Every interface of the executable domain (1-3 parameters; thorough: all pairs over the full alphabet) x {class, pydantic-shaped class, "
+    "function variants, argparse} x 3 styles is emitted, rendered, re-parsed (AST equality), compiled and executed; class attributes and "
+    "annotations, inspect.signature and the populated ArgumentParser (type conversion, choices, default, required, help, parse_args) are "
+    "compared with the description.",
+    "CPython 3.12 is the oracle; pydantic is not installed, so pydantic-shaped classes run against an inert BaseModel stub",
+    "DESIGN.md section 3, C04",
+)
+
 PENDING_REASON = "check not built yet in this revision (planned, see DESIGN.md section 3); no claim is made"
 
 
